@@ -478,6 +478,29 @@ func cmdCheck(args []string) int {
 				known = true
 			}
 		}
+		if !known && len(so.Offenders) > 0 {
+			// per-site matching: every offending site must be a listed finding
+			all := true
+			var rest []string
+			for _, of := range so.Offenders {
+				hit := false
+				for _, f := range findings {
+					if !f.Fixed && f.Prop == id && f.Kind == "structural" && f.Func == of.Func && f.Site == siteText(of.Pos) {
+						f.matched = true
+						hit = true
+					}
+				}
+				if !hit {
+					all = false
+					rest = append(rest, of.Func+" at "+of.Pos+" ("+of.What+")")
+				}
+			}
+			if all {
+				known = true
+			} else {
+				so.Detail = "sites not listed as known findings: " + strings.Join(rest, "; ")
+			}
+		}
 		if known {
 			knownCount++
 			total--
